@@ -41,6 +41,8 @@ def header(kind, box, velz, ppd):
 
 def make_file(rng, d, ftype, N, hkind, comp, k):
     box = float(rng.choice([500.0, 2000.0]))
+    if ((k // 4) + k) % 2 == 0:
+        box = [250.1, 1234.5678, 1185.5][k // 3 % 3]  # header values that float32 does not hold exactly
     velz = float(rng.uniform(100, 3000))
     ppd = int(rng.choice([64, 6912]))
     hdr = header(hkind, box, velz, ppd)
@@ -132,6 +134,30 @@ def check_table(run, t, ftype, data, hdr, load, dtype, desc):
         if not np.all(ok):
             i = np.argwhere(~np.asarray(ok))[0]
             return run.violation('read-asdf-values', dict(column=c, row=int(i[0]), **desc))
+    # "values equal the direct decoding of the file's raw column": the package's own decoders called directly on the raw array with
+    # the header's values give bit-identical columns
+    try:
+        from abacusnbody.data import bitpacked as _bp
+        from abacusnbody.data import pack9 as _p9
+
+        direct = {}
+        if ftype == 'rvint' and (('pos' in exp) or ('vel' in exp)):
+            p_, v_ = _bp.unpack_rvint(data, hdr['BoxSize'], float_dtype=dtype)
+            direct = dict(pos=p_, vel=v_)
+        elif ftype == 'pack9' and (('pos' in exp) or ('vel' in exp)):
+            p_, v_ = _p9.unpack_pack9(data, hdr['BoxSize'], hdr['VelZSpace_to_kms'], float_dtype=dtype)
+            direct = dict(pos=p_, vel=v_)
+        elif ftype in ('packedpid', 'pid'):
+            want = {c: True for c in exp if c in ('pid', 'lagr_pos', 'tagged', 'density', 'lagr_idx')}
+            if want:
+                direct = _bp.unpack_pids(data, box=hdr['BoxSize'], ppd=hdr['ppd'], float_dtype=dtype, **want)
+        for c, dv in direct.items():
+            if c in t.colnames:
+                run.count('columns_compared_with_direct_decoder')
+                if not np.array_equal(np.asarray(t[c]), np.asarray(dv), equal_nan=(np.asarray(dv).dtype.kind == 'f')):
+                    return run.violation('read-asdf-differs-from-direct-decoding', dict(column=c, **desc))
+    except ImportError:
+        pass
     # meta is the file header
     for k, v in hdr.items():
         if t.meta.get(k) != v:
